@@ -51,13 +51,22 @@ structure Gap where
   k : Nat
   id : Nat
   ts : Option Int
+  rel : Option Int := none   -- `@off`: the timestamp is (start of the window being delivered) + off
 
 def parseGap (unit : Int) (g : String) : Option Gap :=
   match g.splitOn ":" with
   | k :: id :: ts :: _ => do
     let k ← parseNat k; let id ← parseNat id
-    some { k := k, id := id, ts := tsOfTok unit ts }
+    if ts.startsWith "@" then
+      (if unit == 0 then some { k := k, id := id, ts := none }
+       else (parseInt (ts.drop 1).toString).map fun off => { k := k, id := id, ts := none, rel := some off })
+    else some { k := k, id := id, ts := tsOfTok unit ts }
   | _ => none
+
+def Gap.tsAt (g : Gap) (start : Int) : Option Int :=
+  match g.rel with
+  | some off => some (start + off)
+  | none => g.ts
 
 variable {σ : Type}
 
@@ -82,7 +91,7 @@ partial def triggerLoop [Inhabited σ] (m : Machine σ) (s : σ) (gaps : List Ga
   | [] => triggerLoop m s1 gaps now k acc hints
   | e :: _ =>
     let (s2, acc2, hints2) := (gaps.filter (·.k == k)).foldl (fun (st : σ × List Emission × List Int) g =>
-        let (s', es') := addRow m st.1 g.id g.ts now st.2.2.head?
+        let (s', es') := addRow m st.1 g.id (g.tsAt e.start) now st.2.2.head?
         (s', st.2.1 ++ es', if es'.isEmpty then st.2.2 else st.2.2.drop 1)) (s1, acc ++ [e], hints)
     triggerLoop m s2 gaps now (k + 1) acc2 hints2
 
@@ -109,7 +118,7 @@ def evsOfObs (obs : List (List String)) (gaps : List Gap) : List WinSpec.Ev := I
         | some a, some b =>
           out := out ++ [WinSpec.Ev.emit (kind == "lemit") a b (ids.filterMap parseNat)]
           for g in gaps do
-            if g.k == k then out := out ++ [WinSpec.Ev.arr g.id g.ts]
+            if g.k == k then out := out ++ [WinSpec.Ev.arr g.id (g.tsAt a)]
           k := k + 1
         | _, _ => pure ()
     | _ => pure ()
@@ -165,10 +174,18 @@ def runWith [Inhabited σ] (m : Machine σ) (s0 : σ) (scfg : WinSpec.Cfg) (c : 
       flushed := true
     | ["tick"] =>
       -- the wall clock strictly increases from one idle tick to the next (each sends a new value)
-      s := if cfgInt c "idle" 0 > 0 then m.tickIdle s (now + Int.ofNat idleTicks) else m.tick s now
-      if cfgInt c "idle" 0 > 0 then
+      -- `idle 1`: IDLETIMEOUT of 1 ns, every tick is idle; `idle > 1`: ticks are placed explicitly (`itick` idle, `tick` busy)
+      s := if cfgInt c "idle" 0 == 1 then m.tickIdle s (now + Int.ofNat idleTicks) else m.tick s now
+      if cfgInt c "idle" 0 == 1 then
+        evs := evs ++ [WinSpec.Ev.idle (now + Int.ofNat idleTicks)]
         idleTicked := true
         idleTicks := idleTicks + 1
+      obs := obs ++ [[]]
+    | ["itick"] =>
+      s := m.tickIdle s (now + Int.ofNat idleTicks)
+      evs := evs ++ [WinSpec.Ev.idle (now + Int.ofNat idleTicks)]
+      idleTicked := true
+      idleTicks := idleTicks + 1
       obs := obs ++ [[]]
     | "pttick" :: gs =>
       let gaps := gs.filterMap (parseGap 1)
@@ -188,9 +205,7 @@ def runWith [Inhabited σ] (m : Machine σ) (s0 : σ) (scfg : WinSpec.Cfg) (c : 
   let spec := if mode == "pt" then
       (match WinSpec.holdsPT scfg evs ptTicks with | none => "ok" | some e => "fail:" ++ e)
     else
-    -- after an idle-timeout tick the watermark comes from the wall clock: the history-based oracle
-    -- (watermark = largest timestamp − tolerance) does not apply; such cases are tied by correspondence only
-    if idleTicked then "ok" else
+    -- an idle-timeout tick raises the oracle's watermark to (wall clock − tolerance) as well (`Ev.idle`)
     match WinSpec.holds scfg evs flushed with
     | none => "ok"
     | some e => "fail:" ++ e
